@@ -366,13 +366,14 @@ Definition share_conn_since (m : mst) (k : option key) (i : nat) : bool :=
    been called, the environment has not resolved it yet, it has not been dropped, and no multiplexed
    connection for the origin has been established since that request was issued - from then on the
    attempt is redundant and the request takes the established connection at its next poll) *)
-Definition h2_flying (cfg : config) (m : mst) (r : nat) (k : option key) : bool :=
+Definition h2_flying (d6 : bool) (cfg : config) (m : mst) (r : nat) (k : option key) : bool :=
   existsb (fun ix => let '(i, x) := ix in
                      negb (Nat.eqb i r) && same_key (ri_key x) k
                      && match ri_proto x with H2 => true | H1 => false end
                      && match ri_dial x, ri_resolved x with DsFlying, None => true | _, _ => false end
                      && (is_live x || g_cont cfg)
-                     && negb (share_conn_since m k (ri_at x)))
+                     && negb (share_conn_since m k (ri_at x))
+                     && (d6 || negb (ri_d6 x)))              (* without [d6]: an attempt that only exists because of D6 does not count *)
           (combine (seq 0 (List.length (m_reqs m))) (m_reqs m)).
 
 (* [d6]: also demand the clause that the pinned code violates (known finding D6: the shared handle is
@@ -384,7 +385,7 @@ Definition chk_ev_C04 (d6 : bool) (cfg : config) (ob : opobs) (m : mst) (e : ev)
       | Some x =>
           if g_pool cfg && (d6 || negb (ri_d6 x)) then                 (* without [d6]: requests issued in the D6 window are exempt *)
             negb (ri_avail x)                                          (* S1/S3: a usable idle connection existed at its Issue *)
-            && negb (match ri_proto x with H2 => h2_flying cfg m r (ri_key x) | H1 => false end)   (* S2 *)
+            && negb (match ri_proto x with H2 => h2_flying d6 cfg m r (ri_key x) | H1 => false end)   (* S2 *)
             && negb (d6 && h2_handle_out m r (ri_key x))                 (* S3 while the shared handle is checked out *)
           else true
       | None => false
